@@ -205,15 +205,29 @@ func genOpts(rng *rand.Rand, tier string, mode string) sim.Opts {
 }
 
 // oneRun executes a run, compares with the model, and returns the result.
-func oneRun(o sim.Opts, useModel bool) runResult {
+func oneRun(o sim.Opts, useModel bool) (rr runResult) {
 	var c *sim.Cluster
-	if o.Fuzz > 0 {
-		c = sim.FuzzNode(o.Seed, o.Fuzz, o.IDMul)
-	} else {
-		c = sim.NewCluster(o)
-		c.Run()
+	aborted := ""
+	func() {
+		// calls into the library are recovered one by one (node.call); a panic that escapes here comes from a
+		// read-only hook or a monitor looking at a library state that is no longer consistent
+		defer func() {
+			if r := recover(); r != nil {
+				aborted = fmt.Sprint(r)
+			}
+		}()
+		if o.Fuzz > 0 {
+			c = sim.FuzzNode(o.Seed, o.Fuzz, o.IDMul)
+		} else {
+			c = sim.NewCluster(o)
+			c.Run()
+		}
+	}()
+	if aborted != "" {
+		return runResult{Opts: o, Stats: map[string]int{"runs_aborted": 1}, Violations: []sim.Violation{{Prop: "*", Key: "run aborted by a panic outside a recovered library call",
+			What: "a read-only hook or a monitor panicked on the node's state: " + aborted}}}
 	}
-	rr := runResult{Opts: o, Violations: c.Violations, Lines: len(c.Rec.Lines), Stats: c.Stats, Digest: recDigest(c)}
+	rr = runResult{Opts: o, Violations: c.Violations, Lines: len(c.Rec.Lines), Stats: c.Stats, Digest: recDigest(c)}
 	if !useModel {
 		return rr
 	}
